@@ -32,7 +32,8 @@ def parse_path(s):
 
 
 def fx_id(s):
-    return {"fixture_name": 0, "cli_args": 1, "project_dir": 2}.get(s) if s in ("fixture_name", "cli_args", "project_dir") else int(s[1:])
+    import gen_projects_c14
+    return gen_projects_c14.FX_IDS[s] if s in gen_projects_c14.FX_IDS else int(s[1:])
 
 
 def sched_names(sf):
